@@ -192,7 +192,7 @@ def World.onLoadQ (w : World) (toks : List String) : World :=
   | none => w
   | some hs =>
     let raw : List RawHead := hs.map (fun e => { entry := e })
-    match syncHeads w.acl raw [] with
+    match syncHeads w.acl (w.curDb + 1) raw [] with
     | SyncOutcome.load es =>
       let model := es.map (·.hash)
       if model != impl then w.fail "corr" "loadq" s!"peer {p}: Sync hands {showNums impl} to the replicator, model {showNums model}" else w
